@@ -10,7 +10,7 @@
    budget is (node limit, answers of the deadline callback at the successive checkpoints) and is
    universally quantified everywhere: `unlimited` is the plain operation, anything else its try_* twin. *)
 Require Import KV.Sdd.Model KV.Sdd.Sem KV.Sdd.Spec KV.Sdd.History.
-Require Import KV.Sdd.Decomp KV.Sdd.Hoare KV.Sdd.MainProofs KV.Sdd.WmcProofs KV.Sdd.DecompHist KV.Sdd.BudgetSim.
+Require Import KV.Sdd.Decomp KV.Sdd.Hoare KV.Sdd.MainProofs KV.Sdd.WmcProofs KV.Sdd.DecompHist KV.Sdd.BudgetSim KV.Sdd.CubeProofs KV.Sdd.CubeHist KV.Sdd.SafeProofs KV.Sdd.SafeHist.
 Require Import QArith.
 
 (* (1) apply is exact: whatever the budget and the fuel, IF it returns a handle, the handle denotes
@@ -151,22 +151,120 @@ Theorem C07_wmc_manager :
 Proof. exact wmc_sum. Qed.
 Print Assumptions C07_wmc_manager.
 
-(* (5, stretch) gradient of an Independent variable v: diff_sdd::wmc_gradient computes
-   wmc[pos v := 1, neg v := 0] - wmc[pos v := 0, neg v := 1], which (by the theorem above, applied to the two
-   re-weighted managers) is the truth-table sum with v forced true minus the one with v forced false, i.e. the
-   derivative of the truth-table sum in pos v when neg v = 1 - pos v.  (decomp_ok / lits_in hold for every
-   reachable manager by C07_decomposable.)  PARTIAL w.r.t. the property: exclusive-group variables are only
-   compared numerically by the check. *)
-Theorem C07_gradient_indep_partial :
-  forall m vs id v sigma0,
-    MInv m -> decomp_ok m = true -> lits_in vs m = true -> validh m id ->
-    kind_of m v = Indep ->
-    normalised vs (set_weights v 1 0 m) = true -> normalised vs (set_weights v 0 1 m) = true ->
-    grad_var m id v ==
-      wsum (pos_of (set_weights v 1 0 m)) (neg_of (set_weights v 1 0 m)) vs (fun s => b2q (den m id s)) sigma0
-    - wsum (pos_of (set_weights v 0 1 m)) (neg_of (set_weights v 0 1 m)) vs (fun s => b2q (den m id s)) sigma0.
-Proof. exact grad_indep. Qed.
-Print Assumptions C07_gradient_indep_partial.
+(* (3b) exclusive groups: the smoothness caveat made explicit.  A variable u is harmless for the formula f
+   (`var_ok`) when its weights are normalised OR it belongs to a group G of pairwise distinct variables such that
+   f entails "exactly one variable of G is true" (annotated-disjunction encoding: pos = p_i, neg = 1, formulas
+   conjoined with the group's exactly_one).  Then - for arbitrary weights of the group variables - wmc equals the
+   truth-table weighted sum over the registered variables.  Proof: wmc is the sum of the weights of the cubes
+   (paths) of the diagram; the value of the node is the number of satisfied cubes (determinism); the expectation
+   of "sigma satisfies c" is W(c) times prod over the variables NOT in c of (pos+neg); and a function entailing
+   exactly-one(G) mentions every variable of G in every cube (flip the variable: both assignments would satisfy
+   the cube, but the counts differ).  C07_wmc is the special case "all normalised". *)
+Theorem C07_wmc_groups :
+  forall fuel ops s outs i sigma0,
+    run_from fuel rinit ops = (s, outs) -> run_ok fuel rinit ops = true ->
+    (forall u, In u (regvars (rm s)) ->
+       var_ok (pos_of (rm s)) (neg_of (rm s)) (fun sg => feval sg (frm s i)) u) ->
+    wmc (rm s) (hnd s i) ==
+    wsum (pos_of (rm s)) (neg_of (rm s)) (regvars (rm s)) (fun sg => b2q (feval sg (frm s i))) sigma0.
+Proof. exact history_wmc_groups. Qed.
+Print Assumptions C07_wmc_groups.
+
+(* (5) gradient, both variable kinds.  diff_sdd::wmc_gradient computes, for variable v,
+     Independent:     wmc[pos v := 1, neg v := 0] - wmc[pos v := 0, neg v := 1]
+     ExclusiveGroup:  wmc[pos v := 1, neg v := 0]
+   and each of these is the truth-table weighted sum under the re-weighted manager (hypothesis: every registered
+   variable is harmless, `var_ok`, under the re-weighting: v itself becomes normalised, the other members of its
+   group keep neg = 1 and are covered by the exactly-one entailment).  By C07_wsum_linear the truth-table sum T is
+   T = pos v * T[1,0] + neg v * T[0,1], so T[1,0] - T[0,1] is dT/d(pos v) when neg v = 1 - pos v (Independent) and
+   T[1,0] is dT/d(pos v) when neg v is the constant 1 (ExclusiveGroup): the gradient equals the truth-table
+   derivative for both kinds. *)
+Theorem C07_gradient :
+  forall fuel ops s outs i v sigma0,
+    run_from fuel rinit ops = (s, outs) -> run_ok fuel rinit ops = true ->
+    let m := rm s in let m1 := set_weights v 1 0 m in let m0 := set_weights v 0 1 m in
+    let f := fun sg => feval sg (frm s i) in
+    (forall u, In u (regvars m) -> var_ok (pos_of m1) (neg_of m1) f u) ->
+    (kind_of m v = Indep -> forall u, In u (regvars m) -> var_ok (pos_of m0) (neg_of m0) f u) ->
+    grad_var m (hnd s i) v ==
+    match kind_of m v with
+    | Indep => wsum (pos_of m1) (neg_of m1) (regvars m) (fun sg => b2q (f sg)) sigma0
+               - wsum (pos_of m0) (neg_of m0) (regvars m) (fun sg => b2q (f sg)) sigma0
+    | Excl _ => wsum (pos_of m1) (neg_of m1) (regvars m) (fun sg => b2q (f sg)) sigma0
+    end.
+Proof. exact history_grad. Qed.
+Print Assumptions C07_gradient.
+
+Theorem C07_wsum_linear :
+  forall pos neg vs v f s, NoDup vs -> In v vs ->
+    wsum pos neg vs f s ==
+    pos v * wsum (fupd pos v 1) (fupd neg v 0) vs f s + neg v * wsum (fupd pos v 0) (fupd neg v 1) vs f s.
+Proof. exact wsum_linear. Qed.
+Print Assumptions C07_wsum_linear.
+
+(* manager-level forms (any manager with the invariants; decomp_ok holds for reachable managers by C07_decomposable) *)
+Theorem C07_wmc_groups_manager :
+  forall m vs id sigma0,
+    MInv m -> decomp_ok m = true -> NoDup vs -> lits_in vs m = true -> validh m id ->
+    (forall u, In u vs -> var_ok (pos_of m) (neg_of m) (fun s => den m id s) u) ->
+    wmc m id == wsum (pos_of m) (neg_of m) vs (fun s => b2q (den m id s)) sigma0.
+Proof. exact wmc_sum_groups. Qed.
+Print Assumptions C07_wmc_groups_manager.
+
+(* (6) totality / fuel sufficiency.  The model's recursion (apply <-> negate through expand, normalize_to,
+   unique_d, compress) is a fixpoint on fuel and its Rust panic paths are explicit `Panic` outcomes.  With fuel above
+   4 * (length of the history) + 3 - the vtree has at most two nodes per registered variable and the nesting depth of
+   apply/negate is at most twice the vtree position of the lowest common ancestor of the operands - NO step of a history
+   whose literals are over registered variables ever reports out-of-fuel (code 3) or a panic path (code 4): every
+   step is Ok (0), DeadlineExceeded (1), NodeBudgetExceeded (2) or a registration (9).  Together with
+   C07_history_exact the exactness statements are total.  Proof: third Hoare pass (`SHoare.v`, `SafeProofs.v`) with a
+   positional invariant (Decision nodes at internal vtree nodes, primes below the left child, subs below the right
+   child; unique table sound and complete; only nodes 0/1 are constants), parent uniqueness in the vtree and
+   minimality of `find_lca` (`Vtree2.v`). *)
+Theorem C07_total :
+  forall fuel ops s outs,
+    run_from fuel rinit ops = (s, outs) -> run_ok fuel rinit ops = true ->
+    (4 * length ops + 3 < fuel)%nat ->
+    Forall okcode outs.
+Proof. exact history_total. Qed.
+Print Assumptions C07_total.
+
+(* single call on any manager with the positional invariant (every reachable manager has it: C07_reachable_positional):
+   fuel above 2 * |vtree| + 3 suffices; the call returns Ok with a valid handle or a budget error, and the invariant
+   is kept *)
+Theorem C07_call_total :
+  forall fuel c m bud m' bud' r,
+    SInvP m -> call_okS m c -> (2 * length (vnodes m) + 3 < fuel)%nat ->
+    run_call fuel c (m, bud) = ((m', bud'), r) ->
+    SInvP m' /\ ext m m' /\ (exists h, r = Ok h /\ validh m' h) \/ SInvP m' /\ ext m m' /\ exists e, r = Err e.
+Proof. exact call_total. Qed.
+Print Assumptions C07_call_total.
+
+Theorem C07_reachable_positional :
+  forall fuel ops s outs,
+    run_from fuel rinit ops = (s, outs) -> run_ok fuel rinit ops = true -> (4 * length ops + 3 < fuel)%nat ->
+    SInvP (rm s) /\ (length (vnodes (rm s)) <= 2 * length ops)%nat.
+Proof. exact history_SInvP. Qed.
+Print Assumptions C07_reachable_positional.
+
+(* (7) canonicity, the part that is proved for every number of variables:
+     - the unique table is complete: two handles whose arena nodes are equal are the same handle;
+     - constants and literals are canonical: two handles that are not Decision nodes and denote the same function
+       are equal.
+   General canonicity (two Decision handles with the same denotation are equal) is NOT proved; see notes/C07.md for
+   the lemma that blocks it (uniqueness of compressed partitions w.r.t. a vtree split). *)
+Theorem C07_unique_nodes :
+  forall m i j, SInvP m -> validh m i -> validh m j -> i <> 0%N -> i <> 1%N -> j <> 0%N -> j <> 1%N ->
+    node_at m i = node_at m j -> i = j.
+Proof. exact unique_nodes. Qed.
+Print Assumptions C07_unique_nodes.
+
+Theorem C07_canonical_simple_partial :
+  forall m i j, MInv m -> SInvP m -> validh m i -> validh m j ->
+    simple_node m i -> simple_node m j ->
+    (forall sigma, den m i sigma = den m j sigma) -> i = j.
+Proof. exact canonical_simple. Qed.
+Print Assumptions C07_canonical_simple_partial.
 
 (* ---- non-vacuity ------------------------------------------------------------------------------------ *)
 (* the empty manager satisfies the invariant *)
@@ -183,7 +281,21 @@ Example C07_wmc_example :
   Qeq_bool (wmc (rm s) (hnd s 5)) (27#50) = true.
 Proof. vm_compute. repeat split; reflexivity. Qed.
 
-(* boundary weights are inside C07_gradient_indep_partial: its hypotheses only ask the OTHER variables to be
+(* annotated disjunction: group {0,1,2} with weights 2/16, 5/16, 9/16 (neg = 1) and an Independent x3 (4/16);
+   f = (x0 | (x1 & x3)) & exactly_one{0,1,2}: wmc = 2/16 + 5/16 * 4/16 = 13/64, and every variable is var_ok-able:
+   the hypotheses of C07_wmc_groups are satisfiable (the entailment is checked on all 16 assignments). *)
+Example C07_wmc_groups_example :
+  let ops := [OVar 1 (5#16) 1 (Excl 0); OVar 3 (4#16) (12#16) Indep; OVar 0 (2#16) 1 (Excl 0); OVar 2 (9#16) 1 (Excl 0);
+              OEo [0; 1; 2] None; OLit 0 true None; OLit 1 true None; OLit 3 true None;
+              OApply 2 3 And None; OApply 1 4 Or None; OApply 5 0 And None]%N in
+  let s := fst (run_from 100 rinit ops) in
+  run_ok 100 rinit ops = true /\
+  Qeq_bool (wmc (rm s) (hnd s 6)) (13#64) = true /\
+  forallb (fun k => implb (feval (sigma_of k) (frm s 6)) (Nat.eqb (count_true (map (sigma_of k) [0; 1; 2]%N)) 1))
+          (indices 4) = true.
+Proof. vm_compute. repeat split; reflexivity. Qed.
+
+(* boundary weights are inside C07_gradient: its hypotheses only ask the OTHER variables to be
    normalised in the two re-weighted managers, so an Independent variable registered with probability exactly 1
    (pos = 1, neg = 0) or 0 is covered.  Here x0 has probability 1, f = (x0 & x1) | ~x2 with p1 = 10/16, p2 = 1/2:
    the hypotheses hold and the gradient in x0 is P(x1 | ~x2) - P(~x2) = 5/16 (not 0). *)
